@@ -24,7 +24,7 @@
 //! No verdict (counted under `noverdict_*` / `partial_*`) where the statement is silent:
 //! `segments.x.end` of a segment with `pc`, a single segment without bank while banks are defined
 //! (auto-assigned by design), `prg` while the only bank has its own filename (where does the header
-//! go), banks without any written byte, a `create-segment` segment whose address matters (its start
+//! go), banks without any written byte and without a size, a `create-segment` segment whose address matters (its start
 //! is not documented), output-format unset with several banks (file extension / may fail).
 //!
 //! A failing configuration is reduced greedily (drop a segment / an unreferenced bank / reset one
@@ -447,7 +447,12 @@ fn model(shape: Shape, v: &Vector) -> Option<Model> {
         let mut img: Option<(Vec<u8>, Vec<Origin>)> = None;
         let mut lo: Option<i64> = None;
         let natural: usize;
-        if writable.is_empty() {
+        if writable.is_empty() && opt(k, F_SIZE) != 0 {
+            // nothing written, but sized: "a sized bank is padded with its fill value to exactly `size` bytes",
+            // "a short bank without fill is an error" - the image is `size` fill bytes or the build fails
+            img = Some((vec![], vec![]));
+            natural = 4;
+        } else if writable.is_empty() {
             partial.push("partial_bank_without_written_bytes");
             undetermined_bank = true;
             natural = 4;
